@@ -164,7 +164,30 @@ def handler_for(status):
     return {4: [1], 2: [2], 3: [3]}.get(status, [])
 
 
+def lost_cancel_flip(c):
+    """The final relabelling of the worker (running -> finished) tests and sets the status under two separate lock
+    acquisitions; a Signal that cancels the node in between is overwritten.  Decidable signature: Signal forwarded its
+    signal to step i AFTER i's command had ended successfully (so it saw the node running and flipped it to canceled
+    in the same critical section) and the node still ends 'finished'.  The model has no such execution."""
+    evs = c["events"]
+    for i, f in enumerate(c.get("final") or []):
+        if f["st"] != 4:
+            continue
+        ends = [e for e in evs if e["e"] == "e" and e.get("i") == i]
+        if not ends or not ends[-1].get("ok", False):
+            continue
+        late = [e for e in evs if e["e"] == "k" and e.get("i") == i and e["t"] > ends[-1]["t"]]
+        if late:
+            return ("step %d was canceled by the stop request (Signal found it running %d us after its command had ended "
+                    "and forwarded the signal) but ends 'finished': the worker's final running->finished relabelling "
+                    "overwrote the cancel" % (i, late[0]["t"] - ends[-1]["t"]), {"kind": "cancel-flip-lost"})
+    return None
+
+
 def py_mon_C04(c):
+    r0 = lost_cancel_flip(c)
+    if r0 is not None:
+        return r0
     evs = c["events"]
     on = handlers_on(c)
     started = [e["i"] if e["e"] == "hs" else -1 - e["i"] for e in evs if e["e"] == "hs" or (e["e"] == "x" and e["i"] < 0)]
@@ -260,6 +283,9 @@ def py_mon_C05(c):
     evs = c["events"]
     if c.get("hung"):
         return ("the run did not end", {"kind": "hung"})
+    r0 = lost_cancel_flip(c)
+    if r0 is not None:
+        return r0
     fin = [f["st"] for f in c["final"]]
     if not c["dry"]:
         for i, x in enumerate(fin):
